@@ -666,9 +666,10 @@ static void space_huge(void)
 	unsigned gi;
 	int withskip;
 	for (gi = 0; gi < sizeof gaps / sizeof *gaps; ++gi)
-	for (withskip = 0; withskip < 2; ++withskip) {
+	for (withskip = 0; withskip < 3; ++withskip) {
 		ref_hdr f;
 		virt_t v;
+		FILE *sparse = NULL;
 		size_t tn = 0;
 		LHAInputStream *st;
 		LHAReader *rd;
@@ -676,7 +677,7 @@ static void space_huge(void)
 		int members = 0, k;
 		char names[8][32];
 		if (gaps[gi] > 0x90000000ull && !VF.thorough && !withskip) continue;      /* 4 GiB through 32-byte reads: thorough tier */
-		if (!vf_case("first member with %llu bytes of data, two members behind it, callbacks %s a skip function", (unsigned long long) gaps[gi], withskip ? "with" : "without")) continue;
+		if (!vf_case("first member with %llu bytes of data, two members behind it, %s", (unsigned long long) gaps[gi], withskip == 2 ? "a sparse seekable file" : withskip ? "callbacks with a skip function" : "callbacks without a skip function")) continue;
 		memset(&f, 0, sizeof f);
 		f.level = 2; memcpy(f.method, "-lh0-", 5); f.name = f.area = (const uint8_t *) ""; f.os = 'U'; f.time_raw = 1262304000u;
 		f.ext[0].type = 1; f.ext[0].data = (const uint8_t *) "big.bin"; f.ext[0].len = 7; f.next = 1;
@@ -690,6 +691,22 @@ static void space_huge(void)
 			memcpy(tail + tn, "hello", 5); tn += 5;
 		}
 		v.tail = tail; v.tailn = tn;
+		if (withskip == 2) {
+			/* the same bytes as a sparse seekable file */
+			char path[64];
+			FILE *wf;
+			snprintf(path, sizeof path, "huge.%d.bin", (int) getpid());
+			wf = fopen(path, "wb");
+			if (!wf || fwrite(head, 1, v.headn, wf) != v.headn || fseeko(wf, (off_t) (v.headn + v.gap), SEEK_SET) || fwrite(tail, 1, tn, wf) != tn || fclose(wf)) {
+				printf("HARNESS cannot write the sparse file of %llu bytes\n", (unsigned long long) (v.headn + v.gap + tn));
+				unlink(path);
+				continue;
+			}
+			sparse = fopen(path, "rb");
+			unlink(path);
+			if (!sparse) continue;
+			st = lha_input_stream_from_FILE(sparse);
+		} else
 		st = lha_input_stream_new(withskip ? &VIRT_SKIP : &VIRT_NOSKIP, &v);
 		rd = lha_reader_new(st);
 		while ((h = lha_reader_next_file(rd)) != NULL && members < 8) { snprintf(names[members], sizeof names[0], "%s", h->filename ? h->filename : "?"); ++members; }
@@ -698,6 +715,7 @@ static void space_huge(void)
 			vf_viol("c16-member-lost", "%d members returned (%s%s%s), the archive holds big.bin, second.txt, third.txt", members, members > 0 ? names[0] : "", members > 1 ? ", " : "", members > 1 ? names[1] : "");
 		lha_reader_free(rd);
 		lha_input_stream_free(st);
+		if (sparse) fclose(sparse);
 		vf_outcome(vf_mix((uint64_t) members, gi));
 		vf_nontrivial(vf_mix(gaps[gi], (uint64_t) withskip) + 1);
 	}
